@@ -645,41 +645,55 @@ fn main() {
     zverif::main_with("C16", |reg, _tier| {
         let owmr = ConcurrencyLevel::OneWriteMultiRead;
         let mwmr = ConcurrencyLevel::MultiWriteMultiRead;
-        reg.add(Sched(VmSpec { name: "VersionManager[OneWriteMultiRead] W2: two writers", level: owmr, threads: vec![vec![AcqW, DropOldest], vec![AcqW, DropOldest]], bound_quick: 2, bound_thorough: 3 }));
+        reg.add(Sched(VmSpec { name: "VersionManager[OneWriteMultiRead] W2: two writers", level: owmr, threads: vec![vec![AcqW, DropOldest], vec![AcqW, DropOldest]], bound_quick: 3, bound_thorough: 3 }));
         reg.add(Sched(VmSpec {
             name: "VersionManager[OneWriteMultiRead] R2: readers acquire/release",
             level: owmr,
             threads: vec![vec![AcqR, DropOldest], vec![AcqR, DropOldest, AcqR, DropOldest]],
-            bound_quick: 2,
-            bound_thorough: 3,
+            bound_quick: 3,
+            bound_thorough: 4,
         }));
         reg.add(Sched(VmSpec {
             name: "VersionManager[OneWriteMultiRead] RW3: reader, writer, reclaimer",
             level: owmr,
             threads: vec![vec![AcqR, DropOldest], vec![AcqW, DropOldest], vec![Retire]],
-            bound_quick: 2,
-            bound_thorough: 3,
+            bound_quick: 3,
+            bound_thorough: 4,
         }));
         reg.add(Sched(VmSpec {
             name: "VersionManager[MultiWriteMultiRead] RW3: reader, writer, reclaimer",
             level: mwmr,
             threads: vec![vec![AcqR, DropOldest], vec![AcqW, DropOldest], vec![Retire]],
-            bound_quick: 2,
-            bound_thorough: 3,
+            bound_quick: 3,
+            bound_thorough: 4,
         }));
         reg.add(Sched(VmSpec {
             name: "VersionManager[MultiWriteMultiRead] W2: two writers allowed",
             level: mwmr,
             threads: vec![vec![AcqW, DropOldest], vec![AcqW, AcqW, DropOldest, DropOldest]],
-            bound_quick: 2,
-            bound_thorough: 3,
+            bound_quick: 3,
+            bound_thorough: 4,
         }));
         reg.add(Sched(VmSpec {
             name: "TokenManager[OneWriteMultiRead] with_reader/with_writer through the thread cache",
             level: owmr,
             threads: vec![vec![TmWithR, TmWithW, TmClear], vec![TmWithW, TmClear, TmWithR]],
+            bound_quick: 3,
+            bound_thorough: 4,
+        }));
+        reg.add(Sched(VmSpec {
+            name: "VersionManager[OneWriteMultiRead] W3: two writers and a reader",
+            level: owmr,
+            threads: vec![vec![AcqW, DropOldest], vec![AcqW, DropOldest], vec![AcqR, Retire, DropOldest]],
             bound_quick: 2,
             bound_thorough: 3,
+        }));
+        reg.add(Sched(VmSpec {
+            name: "VersionManager[OneWriteMultiRead] WW: a writer re-acquires while another waits",
+            level: owmr,
+            threads: vec![vec![AcqW, DropOldest, AcqW, DropOldest], vec![AcqW, DropOldest]],
+            bound_quick: 3,
+            bound_thorough: 4,
         }));
         reg.add(Seq(SeqTokens { level: owmr, dq: 4, dt: 5 }));
         reg.add(Seq(SeqTokens { level: mwmr, dq: 3, dt: 4 }));
